@@ -8,6 +8,7 @@ from vf.harness import Check
 from vf.gen import lens as GL
 from vf.gen.build import build
 from vf.gen import samples as GS
+from vf.gen.edit import edit_strategy, apply_edit
 
 
 def _f(x):
@@ -19,7 +20,9 @@ class C04(Check):
     title = 'Paraxial properties equal matrix optics'
     rule = ('cases: generated axially symmetric prescriptions (profile "paraxial": 1-10 spheres/conics/even aspheres/'
             'planes/mirrors, ideal and catalogue media, object medium n0!=1, negative thickness after mirrors, any stop, '
-            'finite/infinite object, EPD/imageFNO/objectNA, angle/object-height fields) + the 24 bundled samples. '
+            'finite/infinite object, EPD/imageFNO/objectNA, angle/object-height fields), optionally followed by one edit '
+            '(set_index / set_radius / set_thickness / stop moved) of the same Optic after which every accessor is queried '
+            'again and compared with the reference of the edited prescription; + the 24 bundled samples. '
             'Oracle: ABCD matrices in (y, n*u) with index sign reversal at mirrors, built from the spec (not from the '
             'library). Non-trivial: >=3 powered surfaces, stop not on surface 1, and (mirror or finite object or negative '
             'power). Distinct = distinct spec hashes.')
@@ -32,10 +35,11 @@ class C04(Check):
                    'bundled samples: reference built from the prescription read back from public attributes']
 
     def budget(self, tier):
-        return (250, 8) if tier == 'quick' else (6000, 16)
+        return (400, 8) if tier == 'quick' else (6000, 16)
 
     def strategy(self, tier):
-        return GL.lens_spec('paraxial').map(lambda s: dict(kind='spec', spec=s))
+        return st.fixed_dictionaries(dict(kind=st.just('spec'), spec=GL.lens_spec('paraxial'),
+                                          edit=edit_strategy(('index', 'radius', 'thickness', 'stop'))))
 
     def fixed_cases(self, tier):
         return [dict(kind='sample', name=n) for n in GS.sample_names()]
@@ -50,7 +54,21 @@ class C04(Check):
 
     def check(self, case, out):
         if case['kind'] == 'sample':
-            o = GS.make_sample(case['name'])
+            self.core(case, out, GS.make_sample(case['name']), None)
+            return
+        spec = case['spec']
+        o = build(spec)
+        self.core(case, out, o, spec)
+        ed = case.get('edit')
+        if ed:
+            # history on one Optic: query everything, edit through the public setters, query everything again
+            spec2 = apply_edit(o, spec, ed)
+            if spec2 is not None:
+                out.cls('requeried_after_' + ed['kind'] + '_edit')
+                self.core(case, out, o, spec2)
+
+    def core(self, case, out, o, spec):
+        if case['kind'] == 'sample':
             ps = GS.parax_from_optic(o)
             out.cls('sample')
             at, av = o.aperture.ap_type, o.aperture.value
@@ -64,8 +82,6 @@ class C04(Check):
             powered = sum(1 for c in ps.c if c != 0)
             out.nt(True)
         else:
-            spec = case['spec']
-            o = build(spec)
             ps = GL.parax_sys(spec)
             out.cls(*GL.spec_classes(spec))
             at, av = spec['ap']['type'], spec['ap']['value']
